@@ -1,7 +1,7 @@
 (* C14 -- Diagnostics are safe to build, bounded, and say what happened.
    Only statements; every proof is `exact <lemma>` into C14_Proofs.v / C14_Scan.v. *)
 From Coq Require Import NArith ZArith Bool List.
-From CppUVerif Require Import lib.CInt lib.Str gen.Gen_Common gen.Gen_C14 C14_Model C14_Proofs C14_Scan.
+From CppUVerif Require Import lib.CInt lib.Str gen.Gen_Common gen.Gen_C14 C14_Model C14_Proofs C14_Scan C14_LeafTie.
 Import ListNotations.
 Local Open Scope N_scope.
 
@@ -83,3 +83,10 @@ Print Assumptions C14_window_in_bounds.
 Theorem C14_run_meets_spec : forall s, valid s = true -> spec s (run s) = true.
 Proof. exact run_meets_spec. Qed.
 Print Assumptions C14_run_meets_spec.
+
+(* the buffer state machine of the model IS the source: add / clear / setWriteLimit / resetWriteLimit / reachedItsCapacity equal
+   the definitions tools/cxx2coq.py regenerates from clang's AST of MemoryLeakDetector.cpp on every run (gen/Gen_Leaf.v), including
+   the size argument handed to vsnprintf *)
+Theorem C14_buffer_methods_are_the_source : C14_LeafTie.C14_buffer_methods_are_the_source_stmt.
+Proof. exact C14_LeafTie.C14_buffer_methods_are_the_source. Qed.
+Print Assumptions C14_buffer_methods_are_the_source.
